@@ -101,6 +101,19 @@ CHECKS = {
              'profit side, STOP on the loss side, reduce-only, closing side), quantity and price exact, fall-through unreachable.',
         technique='Lean 4 theorems over generated routing functions; translator cross-check on real Strategy/Broker objects; routing-table oracle',
         ref='4 (C10)'),
+    'C11': dict(
+        text='Proof over a hand model of the process-wide state that outlives a research.backtest call (the config memo '
+             'CACHED_CONFIG with its fill-on-first-read rule, config[env][exchanges] shared with its shallow backup, the '
+             'warm-up size, the api.drivers registry; set_config / reset_config / Broker start-up / aborted sessions that skip '
+             'reset_config): for EVERY history of earlier calls (other exchange names, spot/futures, leverage, mode, fee, '
+             'balance, warm-up, aborted or not) a probe call runs with exactly the effective parameters of its own arguments '
+             '(C11.call_effective, C11.history_independent) and its orders reach a driver. Tie: effective parameters observed '
+             'inside real sessions over random call histories in one process; oracle: probe after history vs probe in a '
+             'fresh process (metrics, observations, arguments deep-unmodified).',
+        technique='Lean 4 invariant-free history theorem on a hand session-state model; in-process call-history correspondence; fresh-process oracle',
+        ref='4 (C11)',
+        note='The engine run itself is a black box in this model (its determinism given equal effective parameters and '
+             'candles is exercised by the fresh-process oracle, not proved); store.reset() completeness is covered by the oracle only.'),
     'C12': dict(
         text='Engine model of BOTH simulators tied to the real engine by whole-session trace correspondence per simulator; '
              'oracle: the same real session under fast_mode False/True, filtered by the hypothesis on the normal run (at most '
